@@ -504,16 +504,47 @@ func ctxFirstWrapper(c *core.Ctx) {
 	var probs []string
 	errPaths := 0
 	astx.ForEachExit(info, fd.Body, func(s *astx.State, kind astx.ExitKind, ret *ast.ReturnStmt) {
+		// variables holding the transport error or a classification of it on this path (a helper
+		// that was inlined copies the error into its own parameter and result variables)
+		class := map[types.Object]bool{errObj: true}
+		inClass := func(e ast.Expr) bool {
+			obj := astx.ObjOf(info, e)
+			return obj != nil && class[obj]
+		}
+		for _, st := range s.Steps {
+			as, ok := st.(*ast.AssignStmt)
+			if !ok || len(as.Lhs) != len(as.Rhs) {
+				continue
+			}
+			for i, l := range as.Lhs {
+				lobj := astx.ObjOf(info, l)
+				if lobj == nil {
+					continue
+				}
+				r := astx.Unparen(as.Rhs[i])
+				derived := inClass(r)
+				if call, isCall := r.(*ast.CallExpr); isCall {
+					for _, a := range call.Args {
+						if inClass(a) {
+							derived = true
+						}
+					}
+				}
+				if derived {
+					class[lobj] = true
+				}
+			}
+		}
 		// the transport-error branch: the path calls SetError with the Do error variable
 		// (branch facts about err are killed by its reassignments, so look at the steps)
 		onErrBranch := s.AnyStep(func(n ast.Node) bool {
 			for _, call := range astx.Calls(n) {
-				if f := astx.CalleeFunc(info, call); f != nil && f.Name() == "SetError" && len(call.Args) == 1 && astx.ObjOf(info, call.Args[0]) == errObj {
+				if f := astx.CalleeFunc(info, call); f != nil && f.Name() == "SetError" && len(call.Args) == 1 && inClass(call.Args[0]) {
 					return true
 				}
 			}
 			as, ok := n.(*ast.AssignStmt)
-			return ok && len(as.Lhs) == 1 && astx.ObjOf(info, as.Lhs[0]) == errObj && as.Tok == token.ASSIGN
+			return ok && len(as.Lhs) == 1 && inClass(as.Lhs[0]) && as.Tok == token.ASSIGN
 		})
 		if !onErrBranch {
 			return
@@ -523,7 +554,7 @@ func ctxFirstWrapper(c *core.Ctx) {
 		setArgCoded := false
 		sets := 0
 		for _, st := range s.Steps {
-			if as, ok := st.(*ast.AssignStmt); ok && len(as.Lhs) == 1 && len(as.Rhs) == 1 && astx.ObjOf(info, as.Lhs[0]) == errObj {
+			if as, ok := st.(*ast.AssignStmt); ok && len(as.Lhs) == 1 && len(as.Rhs) == 1 && inClass(as.Lhs[0]) {
 				if call, ok := as.Rhs[0].(*ast.CallExpr); ok {
 					if f := astx.CalleeFunc(info, call); f != nil {
 						order = append(order, f.Name())
@@ -531,7 +562,7 @@ func ctxFirstWrapper(c *core.Ctx) {
 				}
 			}
 			for _, call := range astx.Calls(st) {
-				if f := astx.CalleeFunc(info, call); f != nil && f.Name() == "SetError" && len(call.Args) == 1 && astx.ObjOf(info, call.Args[0]) == errObj {
+				if f := astx.CalleeFunc(info, call); f != nil && f.Name() == "SetError" && len(call.Args) == 1 && inClass(call.Args[0]) {
 					sets++
 				}
 			}
